@@ -30,9 +30,13 @@ def gen_cases(rng, tier, count=None):
         c = gen.algo_case(rng, "Zooming", tier, part=part, fams=FAMS, early_stop=False,
                           n_choices=[100, 200, 300] if tier == "quick" else [200, 400, 800])
         c["params"] = {"nu": float(10 ** rng.uniform(-0.5, 1.5)), "rho": float(rng.uniform(0.4, 0.95))}
+        if rng.random() < 0.15:
+            # resonant settings: 8*phase/(2+pulls) can equal (nu*rho^depth)^2 exactly, where '<=' and '<' differ
+            c["params"] = {"nu": float(rng.choice([1.0, 2.0, 4.0, 0.5])), "rho": float(rng.choice([0.5, 0.25, 0.75]))}
+            c["resonant"] = True
         T = c["T"]
         c["queries"] = sorted(int(x) for x in rng.integers(1, T, size=int(rng.integers(0, 3))))
-        out.append(c)
+        out.append(gen.add_midqueries(rng, c, 0.3))
     return out
 
 
